@@ -14,12 +14,80 @@ pub struct Partition {
     pub imports: Vec<Vec<usize>>,
 }
 
+/// Dimension audit: the extended splits (every third program).  Default = the splits as they were.
+#[derive(Default, Clone)]
+pub struct Ext {
+    /// declarations are dealt out in contiguous blocks (generation order is a topological order, so the import
+    /// relation of 4-6 modules consists of chains and diamonds) instead of at random
+    pub blocks: bool,
+    /// module m is the file `d<m>/p.pn` (one file NAME in several directories), the first one `main.pn`
+    pub dirs: bool,
+    /// the import lines of this module are written twice
+    pub twice: Option<usize>,
+    /// private functions (and, in closed splits, private constants / structures) are renamed by their rank within the
+    /// file (`pf1`, `PC1`, `PS1`, ...), so that every file has private items of the SAME names
+    pub rename_private: bool,
+}
+
+fn file_name(ext: &Ext, m: usize) -> String {
+    if !ext.dirs {
+        format!("p{}.pn", m + 1)
+    } else if m == 0 {
+        "main.pn".to_string()
+    } else {
+        format!("d{m}/p.pn")
+    }
+}
+
+/// replace whole identifiers
+fn rename_idents(text: &str, map: &[(String, String)]) -> String {
+    let mut out = String::with_capacity(text.len());
+    let mut cur = String::new();
+    let flush = |cur: &mut String, out: &mut String| {
+        if !cur.is_empty() {
+            match map.iter().find(|(from, _)| from == cur) {
+                Some((_, to)) => out.push_str(to),
+                None => out.push_str(cur),
+            }
+            cur.clear();
+        }
+    };
+    // (not inside string literals: what the program prints must stay what the single file prints)
+    let mut in_string = false;
+    for c in text.chars() {
+        if c == '"' {
+            flush(&mut cur, &mut out);
+            in_string = !in_string;
+            out.push(c);
+        } else if in_string {
+            out.push(c);
+        } else if c.is_ascii_alphanumeric() || c == '_' {
+            cur.push(c);
+        } else {
+            flush(&mut cur, &mut out);
+            out.push(c);
+        }
+    }
+    flush(&mut cur, &mut out);
+    out
+}
+
 /// Partition the declarations of `p` into k modules.  A declaration becomes `pub` iff another module
 /// needs it; a module imports every module that holds something it needs.  "Needs" follows the
 /// definitions of constants, structures and words (they travel with the import), not function bodies.
 pub fn partition(p: &Program, k: usize, rng: &mut Rng, closed: bool) -> Partition {
+    partition_ext(p, k, rng, closed, &Ext::default())
+}
+
+pub fn partition_ext(p: &Program, k: usize, rng: &mut Rng, closed: bool, ext: &Ext) -> Partition {
     let n = p.len();
     let mut module_of: Vec<usize> = (0..n).map(|_| rng.below(k)).collect();
+    if ext.blocks {
+        // blocks of the generation order, the LAST block in the first file (main.pn holds `main`)
+        for a in 0..n {
+            module_of[a] = (k - 1) - (a * k / n).min(k - 1);
+        }
+    }
     for m in 0..k.min(n) {
         // every module holds at least one declaration
         if !module_of.contains(&m) {
@@ -81,7 +149,10 @@ pub fn partition(p: &Program, k: usize, rng: &mut Rng, closed: bool) -> Partitio
         let ipos = if (m + n + k + imports[m].len()) % 2 == 0 { 0 } else { (m * 7 + n + 3 * imports[m].len()) % (own + 1) };
         let mut import_text = String::new();
         for j in &imports[m] {
-            import_text.push_str(&format!("import \"p{}.pn\";\n", j + 1));
+            import_text.push_str(&format!("import \"{}\";\n", file_name(ext, *j)));
+        }
+        if ext.twice == Some(m) {
+            import_text = format!("{import_text}{import_text}");
         }
         import_text.push('\n');
         let mut written = 0;
@@ -102,7 +173,35 @@ pub fn partition(p: &Program, k: usize, rng: &mut Rng, closed: bool) -> Partitio
         if ipos >= own {
             src.push_str(&import_text);
         }
-        files.push((format!("p{}.pn", m + 1), src));
+        if ext.rename_private {
+            // Private items are mentioned in their own file only.  (In a minimal split the definition of a public
+            // constant / structure may mention a private one, which the importer re-analyses -- a known finding --
+            // so there only functions are renamed.)
+            let mut map = Vec::new();
+            let (mut nf, mut nc, mut ns) = (0, 0, 0);
+            for a in 1..=n {
+                if module_of[a - 1] != m || public[a - 1] || p.name(a) == "main" {
+                    continue;
+                }
+                match p.kind(a) {
+                    "fn" => {
+                        nf += 1;
+                        map.push((p.name(a), format!("pf{nf}")));
+                    }
+                    "const" if closed => {
+                        nc += 1;
+                        map.push((p.name(a), format!("PC{nc}")));
+                    }
+                    "struct" if closed => {
+                        ns += 1;
+                        map.push((p.name(a), format!("PS{ns}")));
+                    }
+                    _ => (),
+                }
+            }
+            src = rename_idents(&src, &map);
+        }
+        files.push((file_name(ext, m), src));
     }
     Partition { files, module_of, public, imports }
 }
@@ -160,14 +259,57 @@ pub struct Split {
     pub program: Program,
     pub part: Partition,
     pub k: usize,
+    /// the file orders that are run
+    pub orders: Vec<Vec<usize>>,
+    /// an unrelated module (no `main`, nothing of it is imported) that is compiled along, if any
+    pub unrelated: Option<Program>,
 }
 
 pub fn make_split(seed: u64, i: usize, closed: bool) -> Split {
     let mut rng = Rng::new(seed, 0xC12B_0000 + i as u64);
     let program = Program::generate(seed ^ 0x5117, i);
-    let k = rng.range(2, 4).min(program.len());
-    let part = partition(&program, k, &mut rng, closed);
-    Split { program, part, k }
+    if i % 3 != 2 {
+        let k = rng.range(2, 4).min(program.len());
+        let part = partition(&program, k, &mut rng, closed);
+        return Split { program, part, k, orders: permutations(k), unrelated: None };
+    }
+    // Dimension audit: every third split is an extended one (generator of its own): 4-6 files in chains and diamonds, one
+    // file name in several directories, an import written twice, private items of equal names in every file, an
+    // unrelated module compiled along; a sample of at most 10 file orders.
+    let mut x = Rng::new(seed, 0xC12B_8000 + i as u64);
+    let k = x.range(4, 6).min(program.len());
+    let ext = Ext { blocks: x.chance(70), dirs: x.chance(50), twice: if x.chance(50) { Some(x.below(k)) } else { None }, rename_private: x.chance(70) };
+    let mut part = partition_ext(&program, k, &mut x, closed, &ext);
+    let unrelated = if x.chance(50) { Some(Program::generate(seed ^ 0x7117, i).without_main()) } else { None };
+    let mut kk = k;
+    if let Some(u) = &unrelated {
+        // structures and words get names of their own (same-named structures of different layout in one Compiler are a
+        // finding of their own); functions and constants keep the names they share with the program
+        let ids: Vec<usize> = (1..=u.len()).collect();
+        let own: Vec<(String, String)> = ids.iter().filter(|a| u.kind(**a) == "struct").map(|a| (u.name(*a), format!("U{}", u.name(*a)))).collect();
+        part.files.push((if ext.dirs { "du/p.pn".to_string() } else { "u.pn".to_string() }, u.render_shared(&ids, &own)));
+        kk += 1;
+    }
+    let mut orders: Vec<Vec<usize>> = Vec::new();
+    let id: Vec<usize> = (0..kk).collect();
+    orders.push(id.clone());
+    orders.push(id.iter().rev().copied().collect());
+    for r in 1..kk {
+        let mut o = id.clone();
+        o.rotate_left(r);
+        orders.push(o);
+    }
+    while orders.len() < 10 {
+        let mut o = id.clone();
+        for j in (1..kk).rev() {
+            o.swap(j, x.below(j + 1));
+        }
+        if !orders.contains(&o) {
+            orders.push(o);
+        }
+    }
+    orders.truncate(10);
+    Split { program, part, k: kk, orders, unrelated }
 }
 
 /// One file order of one split (run in its own process: the compile can abort inside LLVM).
@@ -197,7 +339,7 @@ pub fn split_record(seed: u64, i: usize, closed: bool, verbose: bool, run_order:
         println!("single: {single}");
     }
     let mut runs = Vec::new();
-    for order in permutations(sp.k) {
+    for order in sp.orders.clone() {
         let order1: Vec<usize> = order.iter().map(|j| j + 1).collect();
         let b = run_order(&order1);
         if verbose {
@@ -205,13 +347,22 @@ pub fn split_record(seed: u64, i: usize, closed: bool, verbose: bool, run_order:
         }
         runs.push(b);
     }
-    let decls: Vec<Value> = (1..=n)
+    let mut decls: Vec<Value> = (1..=n)
         .map(|a| json!({"n": p.name(a), "m": sp.part.module_of[a - 1] + 1, "pub": sp.part.public[a - 1],
                         "cont": p.is_container(a), "k": p.kind(a),
                         "refs": p.refs(a).iter().map(|b| p.name(*b)).collect::<Vec<_>>()}))
         .collect();
+    let mut imports: Vec<Vec<usize>> = sp.part.imports.iter().map(|v| v.iter().map(|j| j + 1).collect::<Vec<_>>()).collect();
+    if let Some(u) = &sp.unrelated {
+        // the unrelated module: private declarations that mention each other only (names made unique for the record)
+        for a in 1..=u.len() {
+            decls.push(json!({"n": format!("U_{}", u.name(a)), "m": sp.k, "pub": false, "cont": u.is_container(a), "k": u.kind(a),
+                              "refs": u.refs(a).iter().map(|b| format!("U_{}", u.name(*b))).collect::<Vec<_>>()}));
+        }
+        imports.push(Vec::new());
+    }
     json!({"ev": "split", "prog": i, "seed": seed, "nmods": sp.k, "closed": closed,
-           "decls": decls, "imports": sp.part.imports.iter().map(|v| v.iter().map(|j| j + 1).collect::<Vec<_>>()).collect::<Vec<_>>(),
+           "decls": decls, "imports": imports, "extended": i % 3 == 2,
            "single": single, "runs": runs})
 }
 
@@ -241,9 +392,24 @@ pub fn hist_record(seed: u64, i: usize, verbose: bool) -> Value {
         Vec::new()
     };
     let fa = ("a.pn".to_string(), a.render_shared(&ida, &own_names));
-    let fb = ("b.pn".to_string(), b.render(&idb));
+    let mut fb = ("b.pn".to_string(), b.render(&idb));
+    // Dimension audit.  i = 3 mod 8: module B is FAULTY (its diagnostics must be the same alone and after A);
+    // i = 6 mod 8: TWO unrelated modules are compiled before B (state that survives more than one add_module).
+    if i % 8 == 3 {
+        fb.1.push_str("fn faulty(x: i32) -> i32\n{\n\treturn: x + NOT_DECLARED_ANYWHERE\n}\n");
+    }
+    let mut before = vec![fa.clone()];
+    if i % 8 == 6 {
+        let a2 = Program::generate(seed ^ 0x4157, 2 * i + 100_001).without_main();
+        let ida2: Vec<usize> = (1..=a2.len()).collect();
+        let own2: Vec<(String, String)> = ida2.iter().filter(|x| a2.kind(**x) == "struct").map(|x| (a2.name(*x), format!("X{}", a2.name(*x)))).collect();
+        before.push(("a2.pn".to_string(), a2.render_shared(&ida2, &own2)));
+    }
     if verbose {
-        println!("---- a.pn\n{}\n---- b.pn\n{}", fa.1, fb.1);
+        for (path, src) in &before {
+            println!("---- {path}\n{src}");
+        }
+        println!("---- b.pn\n{}", fb.1);
     }
     let module_b = |o: &driver::MultiOutcome| -> Value {
         let m = o.modules.iter().find(|m| m.path == "b.pn").expect("module b");
@@ -253,7 +419,9 @@ pub fn hist_record(seed: u64, i: usize, verbose: bool) -> Value {
     };
     let o1 = driver::run_multi(&[fb.clone()], driver::Upto::Ir, false, false);
     let alone = module_b(&o1);
-    let o2 = driver::run_multi(&[fa.clone(), fb.clone()], driver::Upto::Ir, false, false);
+    let mut all = before.clone();
+    all.push(fb.clone());
+    let o2 = driver::run_multi(&all, driver::Upto::Ir, false, false);
     let after = module_b(&o2);
     let linked = behaviour(o2.ok, o2.ir.as_ref(), o2.panic.as_ref(), json!([]), json!([]));
     if verbose {
